@@ -5,7 +5,11 @@ continues afterwards; one counter per module shared by every importer).
 A project spec is a dict:
   n       number of modules, module 0 = entry `main`, the others `ma mb mc md`
   edges   list of edge dicts in *statement order per importer*:
-            {i, j, form: S|N|SN|NS, pos: pre|mid|post|block|dead, spell: plain|dot|ext|dotext|dotdot}
+            {i, j, form: string of statement kinds, pos: pre|mid|post|block|dead, spell: plain|dot|ext|dotext|dotdot}
+          statement kinds of a form:  S `import m`   N `import m_bump, m_peek, m_cell, m_via from m`
+                                      T `import type m_T from m` (type-only: binds no value, still an import)
+                                      M `import type m_T, m_bump, m_peek, m_cell, m_via from m` (mixed)
+          e.g. S, N, SN, NS, T, TS, ST, TN, M, SM (N and M never together: duplicate names)
   sub     sorted list of module indices living in `sub/` (closed under imports: `..` does not parse)
 """
 import itertools
@@ -105,7 +109,8 @@ def spelled(spec, e):
 def decl_src(X, exported):
     ex = "export " if exported else ""
     ty = (lambda t: ": " + t) if exported else (lambda t: "")
-    return ("%(ex)s%(X)s_cell: [int...] = [0]\n"
+    tdecl = ("export type %s_T int\n" % X) if exported else ""
+    return (tdecl + "%(ex)s%(X)s_cell: [int...] = [0]\n"
             "%(ex)s%(X)s_n%(tint)s = 0\n"
             "%(X)s_hid = 0\n"
             "%(ex)s%(X)s_bump%(tfn)s = fn() -> int {\n"
@@ -211,6 +216,8 @@ class Sim:
             self.out.append("%s bump %s %d" % (xn, mn, self.bump(mi)))
             self.out.append("%s peek %s %d" % (xn, mn, self.peek(mi)))
             self.out.append("%s cell %s %d" % (xn, mn, self.count(mi)))
+        elif k == "driveT":
+            self.out.append("%s type %s 5" % (xn, NAMES[st[1]]))
         elif k in ("decl", "via_decl", "raw"):
             pass
         elif k == "self":
@@ -255,8 +262,20 @@ def via_list(spec, X):
         for e in edges_of(spec, X):
             if e["pos"] == pos:
                 for kind in e["form"]:
-                    out.append((e["j"], kind))
+                    if kind == "T":
+                        continue                      # a type-only import binds no value
+                    out.append((e["j"], "N" if kind == "M" else kind))
     return out
+
+
+def drives(kind, m):
+    if kind == "S":
+        return [("driveS", m)]
+    if kind == "N":
+        return [("driveN", m)]
+    if kind == "T":
+        return [("driveT", m, "T")]
+    return [("driveT", m, "M"), ("driveN", m)]
 
 
 def module_stmts(spec, X):
@@ -270,7 +289,7 @@ def module_stmts(spec, X):
                 continue
             for kind in e["form"]:
                 res.append(("import", e["j"], kind, spelled(spec, e)))
-                res.append(("driveS" if kind == "S" else "driveN", e["j"]))
+                res += drives(kind, e["j"])
         return res
 
     out += imports_at("pre")
@@ -287,7 +306,7 @@ def module_stmts(spec, X):
             # the bindings die with the block: one form only, driven inside
             kind = e["form"][0]
             body.append(("import", e["j"], kind, spelled(spec, e)))
-            body.append(("driveS" if kind == "S" else "driveN", e["j"]))
+            body += drives(kind, e["j"])
             out.append(("block", "%s_gate%d" % (xn, nb), e["pos"] == "block", body))
     out.append(("via_decl", via_list(spec, X)))
     for extra in spec.get("extra", {}).get(X, []):
@@ -308,6 +327,10 @@ def render_stmt(spec, X, st, ind=""):
         mn = NAMES[m]
         if kind == "S":
             return ["%simport %s" % (ind, path)]
+        if kind == "T":
+            return ["%simport type %s_T from %s" % (ind, mn, path)]
+        if kind == "M":
+            return ["%simport type %s_T, %s_bump, %s_peek, %s_cell, %s_via from %s" % (ind, mn, mn, mn, mn, mn, path)]
         return ["%simport %s_bump, %s_peek, %s_cell, %s_via from %s" % (ind, mn, mn, mn, mn, path)]
     if k == "driveS":
         mn = NAMES[st[1]]
@@ -319,6 +342,10 @@ def render_stmt(spec, X, st, ind=""):
                 '%sprint "%s %s.typeof " + typeof %s.%s_peek' % (ind, xn, mn, mn, mn),
                 '%sprint "%s %s.typeof_cell " + typeof %s.%s_cell' % (ind, xn, mn, mn, mn),
                 '%sprint "%s %s.typeof_n " + typeof %s.%s_n' % (ind, xn, mn, mn, mn)]
+    if k == "driveT":
+        mn = NAMES[st[1]]
+        return ['%s%s_t%s_%s: %s_T = 5' % (ind, xn, st[2], mn, mn),
+                '%sprint "%s type %s " + %s_t%s_%s' % (ind, xn, mn, xn, st[2], mn)]
     if k == "driveN":
         mn = NAMES[st[1]]
         return ['%sprint "%s bump %s " + %s_bump()' % (ind, xn, mn, mn),
@@ -447,6 +474,25 @@ def enumerate_space(max_n, positions, forms=FORMS):
                             yield spec_id(n, edges, spec), spec
 
 
+TYPE_FORMS = ("S", "T", "TS", "M")
+
+
+def type_form_space(max_n=3):
+    """Every DAG on 2..max_n modules x form per edge {S, T (type-only names import), TS, M (mixed)} x uniform placement
+    (all pre | all post) x statement orders, same directory."""
+    for n in range(2, max_n + 1):
+        for edges in all_dags(n):
+            edges = list(edges)
+            e = len(edges)
+            for fs in itertools.product(TYPE_FORMS, repeat=e):
+                if all(f == "S" for f in fs):
+                    continue
+                for pos in ("pre", "post"):
+                    for od in orders(edges):
+                        spec = make_spec(n, edges, fs, [pos] * e, od, ())
+                        yield spec_id(n, edges, spec), spec
+
+
 def sampled_space(n, forms, per, salt):
     """Every DAG on n nodes x every form assignment, each with `per` placements / orders / directory placements
     drawn from a generator that depends only on the case id (identical for every seed)."""
@@ -472,7 +518,7 @@ def random_spec(rng, n):
         if reachable_all(n, edges):
             break
     e = len(edges)
-    fs = [rng.choice(["S", "S", "N", "N", "SN", "NS"]) for _ in range(e)]
+    fs = [rng.choice(["S", "S", "N", "N", "SN", "NS", "T", "T", "TS", "ST", "TN", "M", "SM"]) for _ in range(e)]
     ps = [rng.choice(["pre", "mid", "post", "pre", "mid", "post", "pre", "post", "block", "dead"]) for _ in range(e)]
     od = rng.choice(list(orders(edges))) if e <= 7 else None
     if od is None:
@@ -626,6 +672,25 @@ def spelling_cases(full):
             yield "spelling@sub:%s,%s" % (a, b), spelling_class(spec), spec
 
 
+LAUNCHES = ("cwd", "parent", "abs")
+
+
+def spelling_launch_family():
+    """Small deterministic family (both tiers): the shared module ma is imported by the entry and by mb under the
+    spellings plain / dot, with ma and mb beside the entry ('flat') or in sub/ ('sub': `sub/ma` | `./sub/ma` from the
+    entry, `ma` | `./ma` from the sibling), either statement order in the entry, and the entry started from its own
+    directory, by a relative path from the parent directory (cwd != entry directory) and by an absolute path.
+    Yields (case id, launch, spec)."""
+    edges = [(0, 1), (0, 2), (2, 1)]
+    for layout, sub in (("flat", ()), ("sub", (1, 2))):
+        for a in ("plain", "dot"):
+            for b in ("plain", "dot"):
+                for oname, od in (("ma-first", [0, 1, 2]), ("mb-first", [1, 0, 2])):
+                    for launch in LAUNCHES:
+                        spec = make_spec(3, edges, ("S", "S", "S"), ["pre", "pre", "pre"], od, sub, [a, "plain", b])
+                        yield "spelling:%s/%s/%s,%s/%s" % (layout, launch, a, b, oname), launch, spec
+
+
 # ----------------------------------------------------------------------------- pinned catalogue
 
 PIN_C07_FILES = {
@@ -670,12 +735,16 @@ PIN_COND_EVENTS = [("miss", "pd"), ("hit", "pd")]
 _M = re.compile(r'^(.*)#__module__$')
 
 
-def norm_event(kind, path):
+def norm_event(kind, path, base=None):
+    """base: the entry's directory as the interpreter sees it (relative prefix or absolute path), stripped."""
     m = _M.match(path)
     p = m.group(1) if m else path
     if p.endswith(".mmm"):
         p = p[:-4]
-    return (kind, os.path.normpath(p))
+    p = os.path.normpath(p)
+    if base:
+        p = os.path.relpath(p, os.path.normpath(base))
+    return (kind, p)
 
 
 def compare(exp_lines, obs_lines, exp_events, obs_events, ok):
